@@ -112,6 +112,19 @@ CLAIMED = {
              "uses 4 of the 8 table names and deletion by name/id; data frames and behaviour after "
              "reopening (libhdf5) are outside. Counterexamples replayed on a real HDF5 file.",
         ref="3 C03"),
+    "C10": dict(
+        text="For value lists of length 1-2 (quick) / 1-3 (thorough) whose elements have a symbolic "
+             "KIND (bool/int/float/str; ints unbounded, the others from tables containing the "
+             "colliding True / 1 / 1.0 and empty / non-ASCII text): create_property stores exactly "
+             "the list with the right type iff it is homogeneous, otherwise TypeError and nothing is "
+             "created; values= / extend_values on a property of each of the four types store the new "
+             "list / old+new iff all elements have the property's kind, otherwise TypeError and the "
+             "stored values are unchanged; clearing keeps the type; Section lookup / assignment / "
+             "deletion / membership / len / iteration / items agree with props and sections.",
+        note="Runs on fakeh5; np.array/np.shape in property.py are served by a list-preserving shim so "
+             "values stay symbolic; conversion to HDF5 types and back, NaN/extremes and reopening are "
+             "libhdf5/NumPy (exercised only by the real-stack replay of counterexamples).",
+        ref="3 C10"),
 }
 
 NOT_APPLICABLE = {
